@@ -1264,7 +1264,7 @@ pub fn gen_c17(r: &mut Rng, tier: Tier) -> Case {
     // somebody edits or deletes generated files by hand between two runs
     if r.chance(1, 5) && ops.len() >= 2 {
         let at = r.range(1, ops.len() as u64 - 1) as usize;
-        let what = *r.pick(&["tamper:delete", "tamper:garble", "tamper:truncate", "tamper:delete_all", "tamper:append", "tamper:prepend", "tamper:banner", "tamper:crlf", "tamper:midline"]);
+        let what = *r.pick(&["tamper:delete", "tamper:garble", "tamper:truncate", "tamper:delete_all", "tamper:append", "tamper:prepend", "tamper:banner", "tamper:crlf", "tamper:midline", "tamper:strip_nl", "tamper:extra_nl", "tamper:trail_ws", "tamper:case", "tamper:swap", "tamper:indent"]);
         let mut t = ops[at].clone();
         t.role = format!("{what}:{}", r.below(8));
         t.faults.clear();
@@ -1376,6 +1376,58 @@ fn eval_c17(case: &Case, sc: &mut Scratch, res: &mut EvalResult) {
                             e.push(c);
                         }
                         let _ = std::fs::write(&p, e);
+                    }
+                    "strip_nl" => {
+                        // an editor that drops the final newline(s)
+                        let mut b = std::fs::read(&p).unwrap_or_default();
+                        while b.last() == Some(&b'\n') {
+                            b.pop();
+                        }
+                        let _ = std::fs::write(&p, b);
+                    }
+                    "extra_nl" => {
+                        // white space only: blank lines after the last and before the first line
+                        let mut b = b"\n".to_vec();
+                        b.extend(std::fs::read(&p).unwrap_or_default());
+                        b.extend_from_slice(b"\n\n");
+                        let _ = std::fs::write(&p, b);
+                    }
+                    "trail_ws" => {
+                        // white space only: a blank at the end of every line
+                        let b = std::fs::read(&p).unwrap_or_default();
+                        let mut e = Vec::with_capacity(b.len() + 64);
+                        for c in b {
+                            if c == b'\n' {
+                                e.push(b' ');
+                            }
+                            e.push(c);
+                        }
+                        let _ = std::fs::write(&p, e);
+                    }
+                    "indent" => {
+                        // white space only: tabs for the leading blanks (a formatter ran over the file)
+                        let b = std::fs::read(&p).unwrap_or_default();
+                        let t = String::from_utf8_lossy(&b).replace("\n    ", "\n\t").replace("\n  ", "\n\t");
+                        let _ = std::fs::write(&p, t.as_bytes());
+                    }
+                    "case" => {
+                        // letter case only: same length, same letters
+                        let mut b = std::fs::read(&p).unwrap_or_default();
+                        let from = b.len() / 3;
+                        if let Some(i) = (from..b.len()).find(|i| b[*i].is_ascii_alphabetic()) {
+                            b[i] ^= 0x20;
+                        }
+                        let _ = std::fs::write(&p, b);
+                    }
+                    "swap" => {
+                        // two generated files exchanged (same sizes in total, each intact)
+                        if files.len() >= 2 {
+                            let q = out.join(files[(n + 1) % files.len()]);
+                            let a = std::fs::read(&p).unwrap_or_default();
+                            let c = std::fs::read(&q).unwrap_or_default();
+                            let _ = std::fs::write(&p, c);
+                            let _ = std::fs::write(&q, a);
+                        }
                     }
                     "midline" => {
                         // one character changed somewhere in the middle
